@@ -140,7 +140,14 @@ func ExpectTo(b *MsgB, mdl *model.Model, sv reflect.Value) *Node {
 		v, ok := ab.Get(sv)
 		if !ok {
 			// nil nullable-embedded parent, or inactive / unset oneof branch
-			out.Attrs[a.Name] = nullOf(ab, mdl)
+			n := nullOf(ab, mdl)
+			if ab.Sub != nil && a.Card == "" && !a.Pointer && a.Oneof == "" {
+				// a message held by value below a nil embedded parent: "children of a nil embedded
+				// message are null" and "non-nullable message attributes are never null" both apply,
+				// so its null-ness is not asserted
+				n.NullDC = true
+			}
+			out.Attrs[a.Name] = n
 			continue
 		}
 		switch a.Card {
@@ -186,6 +193,9 @@ func MatchNode(path string, exp, got *Node, o MatchOpts) string {
 		return fmt.Sprintf("%s: null=%v, want null=%v (got %s, want %s)", path, got.Null, exp.Null, got.String(), exp.String())
 	}
 	if got.Null || (exp.Null && exp.NullDC) {
+		return ""
+	}
+	if exp.NullDC && exp.Kind == "object" && exp.Attrs == nil {
 		return ""
 	}
 	switch exp.Kind {
